@@ -73,7 +73,7 @@ def standalone_case(cfg, case, io):
 
 
 def run(chk, replay=None):
-    proof = proof_check(PID)
+    proof = proof_check_streams(PID, "C20Devices")
     drv = build_driver(); exe = build_harness("devices"); cfg = harness_config(exe)
     if replay:
         r = json.load(open(replay)); c = r["case"]
